@@ -695,7 +695,7 @@ Qed.
 
 Lemma partition_pts_spec (ps : list rpt) l c r :
   (2 <= length ps)%nat -> partition_pts Ro ps = (l, c, r) ->
-  Permutation (l ++ r) ps /\ l <> [] /\ r <> [].
+  Permutation (l ++ r) ps /\ l <> [] /\ r <> [] /\ (exists e, In e ps /\ c = fst e).
 Proof.
   intros Hlen. unfold partition_pts. cbv zeta.
   match goal with |- context [List.partition ?f0 ?l0] => set (f := f0); set (ps' := l0) end.
@@ -717,16 +717,18 @@ Proof.
       by (rewrite (Permutation_length Hpp); apply Permutation_length; exact Pp).
     assert (Hd : b :: r0 = removelast (b :: r0) ++ [last (b :: r0) dflt_ipt])
       by (apply app_removelast_last; discriminate).
-    repeat split.
+    split; [|split; [|split]].
     + eapply perm_trans; [|exact Pp]. eapply perm_trans; [|exact Hpp].
       apply last_removelast_perm. discriminate.
     + discriminate.
     + intros Hn. rewrite Hn in Hd. cbn [app] in Hd. rewrite Hd in Hl. cbn [length] in Hl.
       rewrite <- Hl in Hlen. exact (Nat.nle_succ_diag_l 1 Hlen).
-  - intros E. apply pair_equal_spec in E. destruct E as [E E3]. apply pair_equal_spec in E. destruct E as [E1 E2]. subst l c r. repeat split.
+    + exists e. split; [apply (Permutation_in _ Pp); exact He | reflexivity].
+  - intros E. apply pair_equal_spec in E. destruct E as [E E3]. apply pair_equal_spec in E. destruct E as [E1 E2]. subst l c r. split; [|split; [|split]].
     + eapply perm_trans; [exact Hpp | exact Pp].
     + discriminate.
     + intros Hn. subst. contradiction.
+    + exists e. split; [apply (Permutation_in _ Pp); exact He | reflexivity].
 Qed.
 
 (** * radius and invariant *)
@@ -794,7 +796,7 @@ Proof.
       destruct (partition_pts Ro ps) as [[l c] r] eqn:Ep.
       assert (H2 : (2 <= length ps)%nat)
         by (apply Nat.le_trans with (S leaf); [apply le_n_S; exact Hleaf | exact E]).
-      destruct (partition_pts_spec ps l c r H2 Ep) as [Pp [Hl Hr]].
+      destruct (partition_pts_spec ps l c r H2 Ep) as [Pp [Hl [Hr _]]].
       assert (Hlen := Permutation_length Pp). rewrite app_length in Hlen.
       assert (Ll : (length l <= f)%nat).
       { destruct r; [contradiction|]. unfold rpt, ipt, pt in *. simpl in Hlen. lia. }
@@ -960,7 +962,7 @@ Example bt_new_runs :
   /\ tree_inv B64_ops L2 (bt_new B64_ops L2 1 [[0]; [2]; [1]]%float) = true.
 Proof. split; vm_compute; reflexivity. Qed.
 
-(* the repaired sphere bound at work on the input of finding F25: the point (1,1) at reduced
+(* the repaired sphere bound at work on the input of finding F38: the point (1,1) at reduced
    distance 2 from the query (0,0) lies in the sphere around (2,2) of radius sqrt 2; with the safety
    margin (eps = 2^-52) the bound stays at or below 2, without it (eps = 0) it is 2.0000000000000004 *)
 Example f25_bound :
@@ -968,3 +970,493 @@ Example f25_bound :
   (PrimFloat.leb (node_bound B64_ops 0x1p-52 L2 [0; 0] t) 2 = true /\
    PrimFloat.ltb 2 (node_bound B64_ops 0 L2 [0; 0] t) = true)%float.
 Proof. split; vm_compute; reflexivity. Qed.
+
+(** * the best-first search of the ball tree returns a correct answer (over the reals) *)
+Definition desc_by {A} (key : A -> R) (l : list A) : Prop := StronglySorted (fun a b => key b <= key a) l.
+
+Lemma ins_desc_sorted {A} (key : A -> R) x l : desc_by key l -> desc_by key (ins_desc Ro key x l).
+Proof.
+  unfold desc_by. induction l as [|y t IH]; simpl; intros H.
+  - constructor; constructor.
+  - inversion H as [|? ? Ht Hy]; subst.
+    destruct (Rltb (key y) (key x)) eqn:E.
+    + apply Rltb_true in E. constructor; auto. constructor; [lra|].
+      rewrite Forall_forall in *. intros z Hz. specialize (Hy z Hz). lra.
+    + apply Rltb_false in E. constructor; auto.
+      rewrite Forall_forall in *. intros z Hz.
+      apply (Permutation_in _ (ins_desc_perm key x t)) in Hz. destruct Hz as [Hz | Hz]; subst; auto.
+Qed.
+
+Lemma desc_by_head {A} (key : A -> R) x l : desc_by key (x :: l) -> forall y, In y (x :: l) -> key y <= key x.
+Proof.
+  intros H y [Hy | Hy]; [subst; lra|]. inversion H; subst. rewrite Forall_forall in *. auto.
+Qed.
+
+Lemma perm_swap_app {A} (X Y Z : list A) : Permutation (X ++ Y ++ Z) (Y ++ X ++ Z).
+Proof. rewrite !app_assoc. apply Permutation_app_tail. apply Permutation_app_comm. Qed.
+Lemma perm_lift {A} (X Y R R' : list A) : Permutation R (X ++ R') -> Permutation (Y ++ R) (X ++ Y ++ R').
+Proof. intros H. eapply perm_trans; [apply Permutation_app_head; exact H | apply perm_swap_app]. Qed.
+Lemma perm_nil_end {A} (L R : list A) : Permutation (L ++ []) (R ++ []) -> Permutation L R.
+Proof. rewrite !app_nil_r. auto. Qed.
+(* a solver for permutations between lists built from ++ over the same atoms *)
+Ltac perm_pull X := first [ apply Permutation_refl | apply perm_lift; perm_pull X ].
+Ltac perm_go :=
+  match goal with
+  | |- Permutation [] _ => apply Permutation_refl
+  | |- Permutation (?X ++ ?L) ?R =>
+      refine (perm_trans (l' := X ++ _) _ _); [| apply Permutation_sym; perm_pull X ]; apply Permutation_app_head; perm_go
+  end.
+Ltac perm_solve := cbn [app]; apply perm_nil_end; repeat rewrite <- app_assoc; perm_go.
+
+Lemma perm_move {A} (p : A) pend S S' Q Pl :
+  Permutation S' (p :: S) -> Permutation ((p :: pend) ++ S ++ Q) Pl -> Permutation (pend ++ S' ++ Q) Pl.
+Proof.
+  intros H1 H2. eapply perm_trans; [|exact H2].
+  eapply perm_trans; [apply Permutation_app_head; apply Permutation_app_tail; exact H1|].
+  simpl. apply Permutation_sym. apply Permutation_middle.
+Qed.
+
+Section Search.
+Context (m : metric) (q : list R) (k : nat) (mx : option R) (eps : R) (dm : nat).
+Context (Heps : 0 <= eps) (Hk : (1 <= k)%nat) (Hq : length q = dm).
+Context (P : list rpt).
+
+Definition dqp (p : rpt) : R := rdist Ro m q (fst p).
+
+(* dimensions: wherever a node holds a point, the point and the node's centre have dimension dm *)
+Fixpoint dim_ok (t : btree R) : Prop :=
+  (forall p, In p (tree_points t) -> length (fst p) = dm /\ length (center t) = dm) /\
+  match t with BLeaf _ _ _ => True | BBranch _ _ l r => dim_ok l /\ dim_ok r end.
+
+Definition node_ok (e : R * btree R) : Prop :=
+  fst e = node_bound Ro eps m q (snd e) /\ Inv m (snd e) /\ dim_ok (snd e).
+
+Definition qpoints (queue : list (R * btree R)) : list rpt := flat_map (fun e => tree_points (snd e)) queue.
+Definition qnodes (queue : list (R * btree R)) : nat := fold_right (fun e a => (tree_nodes (snd e) + a)%nat) 0%nat queue.
+
+Definition out_of_range (p : rpt) : Prop := match mx with Some r => r <= dqp p | None => False end.
+Definition justified (out : list (R * rpt)) (p : rpt) : Prop :=
+  out_of_range p \/ (length out = k /\ worst Ro out <= dqp p).
+
+Definition out_ok (out : list (R * rpt)) : Prop :=
+  desc_by fst out /\ (length out <= k)%nat /\
+  forall e, In e out -> fst e = dqp (snd e) /\ lt_max Ro (fst e) mx = true.
+
+(* state of the loop; [pend] = points of the leaf being scanned, [D] = points set aside *)
+Definition state (pend : list rpt) (queue : list (R * btree R)) (out : list (R * rpt)) (D : list rpt) : Prop :=
+  Permutation (pend ++ (map snd out ++ D) ++ qpoints queue) P /\
+  out_ok out /\
+  (forall p, In p D -> justified out p).
+
+Lemma node_points_bound e p : node_ok e -> In p (tree_points (snd e)) -> fst e <= dqp p.
+Proof.
+  intros [Hb [Hi Hd]] Hp. rewrite Hb. unfold dqp.
+  assert (Hdim : length (fst p) = dm /\ length (center (snd e)) = dm).
+  { destruct (snd e); simpl in Hd; destruct Hd as [Hd _]; apply Hd; exact Hp. }
+  apply node_bound_sound; auto.
+  - destruct (snd e); simpl in Hi; destruct Hi as [Hi _]; exact Hi.
+  - destruct Hdim; congruence.
+  - destruct Hdim; congruence.
+Qed.
+
+Lemma worst_head (out : list (R * rpt)) e : In e out -> desc_by fst out -> fst e <= worst Ro out.
+Proof.
+  destruct out as [|h t]; [intros []|]. intros He Hs. simpl. destruct h as [d p]. simpl.
+  apply (desc_by_head fst (d, p) t Hs e He).
+Qed.
+
+(* visiting one stored point *)
+Lemma visit_point_state p pend queue out D :
+  state (p :: pend) queue out D ->
+  exists D', state pend queue (visit_point Ro m q k mx out p) D'.
+Proof.
+  intros [Hperm [[Hs [Hl He]] Hj]]. unfold visit_point. cbv zeta. fold (dqp p).
+  unfold rpt, ipt, pt in *.
+  destruct (lt_max Ro (dqp p) mx) eqn:Elt; simpl andb.
+  2:{ (* outside the radius *)
+    exists (p :: D). split; [|split; [exact (conj Hs (conj Hl He))|]].
+    - eapply perm_move; [|exact Hperm]. apply Permutation_sym, Permutation_middle.
+    - intros p' [Hp' | Hp']; [subst | auto]. left. unfold out_of_range, lt_max in *.
+      destruct mx as [r|]; [|discriminate]. simpl in Elt. apply Rltb_false in Elt. exact Elt. }
+  destruct (Nat.ltb (length out) k) eqn:Elen; simpl orb.
+  - (* room left: insert *)
+    apply Nat.ltb_lt in Elen.
+    assert (Hlen1 : length (ins_desc Ro fst (dqp p, p) out) = S (length out)).
+    { rewrite (Permutation_length (ins_desc_perm fst (dqp p, p) out)). reflexivity. }
+    assert (Hk1 : Nat.ltb k (length (ins_desc Ro fst (dqp p, p) out)) = false).
+    { apply Nat.ltb_ge. rewrite Hlen1. exact Elen. }
+    rewrite Hk1. exists D. split; [|split; [repeat split|]].
+    + eapply perm_move; [|exact Hperm].
+      apply (Permutation_app_tail D (Permutation_map snd (ins_desc_perm fst (dqp p, p) out))).
+    + apply ins_desc_sorted. exact Hs.
+    + apply Nat.le_trans with (S (length out)); [apply Nat.eq_le_incl; exact Hlen1 | exact Elen].
+    + apply (Permutation_in _ (ins_desc_perm fst (dqp p, p) out)) in H. destruct H as [H | H]; [subst; reflexivity | apply He; auto].
+    + apply (Permutation_in _ (ins_desc_perm fst (dqp p, p) out)) in H. destruct H as [H | H]; [subst; exact Elt | apply He; auto].
+    + intros p' Hp'. destruct (Hj p' Hp') as [H | [H _]]; [left; exact H | exfalso; apply (Nat.lt_irrefl k); apply Nat.le_lt_trans with (length out); [apply Nat.eq_le_incl; symmetry; exact H | exact Elen]].
+  - apply Nat.ltb_ge in Elen. assert (Hfull : length out = k) by (apply Nat.le_antisymm; [exact Hl | exact Elen]).
+    destruct (Rltb (dqp p) (worst Ro out)) eqn:Ew.
+    + (* full, strictly better than the worst: replace the worst *)
+      apply Rltb_true in Ew.
+      destruct out as [|[dh ph] t]; [simpl in Hfull; rewrite <- Hfull in Hk; inversion Hk|].
+      simpl in Ew. simpl ins_desc.
+      assert (Eh : Rltb dh (dqp p) = false) by (apply Rltb_false; lra).
+      simpl fst. rewrite Eh.
+      assert (Hlen1 : length (ins_desc Ro fst (dqp p, p) t) = S (length t)).
+      { rewrite (Permutation_length (ins_desc_perm fst (dqp p, p) t)). reflexivity. }
+      assert (Hk1 : Nat.ltb k (length ((dh, ph) :: ins_desc Ro fst (dqp p, p) t)) = true).
+      { apply Nat.ltb_lt. simpl. simpl in Hfull. rewrite <- Hfull. apply Nat.lt_succ_r. apply Nat.eq_le_incl. symmetry. exact Hlen1. }
+      rewrite Hk1. simpl tl.
+      assert (Hst : desc_by fst t) by (inversion Hs; auto).
+      assert (Hsn : desc_by fst (ins_desc Ro fst (dqp p, p) t)) by (apply ins_desc_sorted; exact Hst).
+      assert (Hle : forall e, In e (ins_desc Ro fst (dqp p, p) t) -> fst e <= dh).
+      { intros e Hin. apply (Permutation_in _ (ins_desc_perm fst (dqp p, p) t)) in Hin.
+        destruct Hin as [Hin | Hin]; [subst; simpl; lra|].
+        apply (desc_by_head fst (dh, ph) t Hs e). right. exact Hin. }
+      assert (Hw : worst Ro (ins_desc Ro fst (dqp p, p) t) <= dh).
+      { destruct (ins_desc Ro fst (dqp p, p) t) as [|[d0 p0] t0] eqn:Ei; [simpl in Hlen1; discriminate Hlen1|].
+        simpl. apply (Hle (d0, p0)). left. reflexivity. }
+      exists (ph :: D). split; [|split; [repeat split|]].
+      * eapply perm_move; [|exact Hperm].
+        eapply perm_trans; [apply (Permutation_app_tail (ph :: D) (Permutation_map snd (ins_desc_perm fst (dqp p, p) t)))|].
+        simpl. apply perm_skip. apply Permutation_sym, Permutation_middle.
+      * exact Hsn.
+      * apply Nat.le_trans with (S (length t)); [apply Nat.eq_le_incl; exact Hlen1 | simpl in Hfull; rewrite <- Hfull; apply Nat.le_refl].
+      * apply (Permutation_in _ (ins_desc_perm fst (dqp p, p) t)) in H. destruct H as [H | H]; [subst; reflexivity | apply He; right; auto].
+      * apply (Permutation_in _ (ins_desc_perm fst (dqp p, p) t)) in H. destruct H as [H | H]; [subst; exact Elt | apply He; right; auto].
+      * intros p' [Hp' | Hp'].
+        -- subst p'. right. split; [simpl in Hfull; rewrite <- Hfull; exact Hlen1|].
+           destruct (He (dh, ph) (or_introl eq_refl)) as [E1 _]. simpl in E1. rewrite <- E1. exact Hw.
+        -- destruct (Hj p' Hp') as [H | [_ H]]; [left; exact H|]. right.
+           split; [simpl in Hfull; rewrite <- Hfull; exact Hlen1|]. simpl in H. lra.
+    + (* full and not better: set aside *)
+      apply Rltb_false in Ew. exists (p :: D). split; [|split; [exact (conj Hs (conj Hl He))|]].
+      * eapply perm_move; [|exact Hperm]. apply Permutation_sym, Permutation_middle.
+      * intros p' [Hp' | Hp']; [subst | auto]. right. split; auto.
+Qed.
+
+Lemma visit_leaf_state pend : forall queue out D,
+  state pend queue out D ->
+  exists D', state [] queue (fold_left (visit_point Ro m q k mx) pend out) D'.
+Proof.
+  induction pend as [|p pend IH]; intros queue out D H; simpl.
+  - exists D. exact H.
+  - destruct (visit_point_state p pend queue out D H) as [D' H']. apply (IH _ _ _ H').
+Qed.
+
+Lemma qpoints_ins e Q : Permutation (qpoints (ins_asc Ro fst e Q)) (tree_points (snd e) ++ qpoints Q).
+Proof.
+  unfold qpoints. induction Q as [|y t IH]; simpl; auto.
+  destruct (Rltb (fst e) (fst y)); simpl; auto.
+  eapply perm_trans; [apply Permutation_app_head; exact IH|].
+  rewrite !app_assoc. apply Permutation_app_tail. apply Permutation_app_comm.
+Qed.
+Lemma qnodes_ins e Q : qnodes (ins_asc Ro fst e Q) = (tree_nodes (snd e) + qnodes Q)%nat.
+Proof.
+  unfold qnodes. induction Q as [|y t IH]; simpl; auto.
+  destruct (Rltb (fst e) (fst y)); simpl; auto. rewrite IH. lia.
+Qed.
+
+(* a child of an expanded branch: pushed on the queue, or all its points are out of range *)
+Lemma push_child c pend Q out D :
+  node_ok (node_bound Ro eps m q c, c) ->
+  state (tree_points c ++ pend) Q out D ->
+  exists D2, state pend (if le_max Ro (node_bound Ro eps m q c) mx
+                         then ins_asc Ro fst (node_bound Ro eps m q c, c) Q else Q) out D2.
+Proof.
+  intros Hn [Hperm [Hok Hj]]. destruct (le_max Ro (node_bound Ro eps m q c) mx) eqn:E.
+  - exists D. split; [|split; auto].
+    eapply perm_trans; [|exact Hperm].
+    eapply perm_trans; [apply Permutation_app_head; apply Permutation_app_head; apply qpoints_ins|].
+    simpl snd. perm_solve.
+  - exists (tree_points c ++ D). split; [|split; auto].
+    + eapply perm_trans; [|exact Hperm]. perm_solve.
+    + intros p Hp. apply in_app_or in Hp. destruct Hp as [Hp | Hp]; [|auto]. left.
+      unfold out_of_range. unfold le_max in E. destruct mx as [r|]; [|discriminate].
+      apply Rleb_false in E. assert (H := node_points_bound _ p Hn Hp). simpl in H. lra.
+Qed.
+
+Lemma asc_head_le (queue : list (R * btree R)) e0 e : asc_by fst (e0 :: queue) -> In e (e0 :: queue) -> fst e0 <= fst e.
+Proof.
+  intros H [Hin | Hin]; [subst; lra|]. inversion H; subst. rewrite Forall_forall in *. auto.
+Qed.
+
+Lemma bt_loop_state : forall fuel queue out D,
+  state [] queue out D -> Forall node_ok queue -> asc_by fst queue -> (qnodes queue < fuel)%nat ->
+  exists D', Permutation (map snd (bt_loop Ro eps fuel m q k mx queue out) ++ D') P /\
+             out_ok (bt_loop Ro eps fuel m q k mx queue out) /\
+             forall p, In p D' -> justified (bt_loop Ro eps fuel m q k mx queue out) p.
+Proof.
+  induction fuel as [|f IH]; intros queue out D Hst Hn Hs Hf; [inversion Hf|].
+  destruct queue as [|[b t0] queue'].
+  - simpl. destruct Hst as [Hperm [Hok Hj]]. exists D. simpl in Hperm. rewrite app_nil_r in Hperm. auto.
+  - cbn [bt_loop].
+    match goal with |- context [if ?cnd then out else _] => destruct cnd eqn:Ebreak end.
+    + (* break: everything still queued is out of reach *)
+      destruct Hst as [Hperm [Hok Hj]]. exists (D ++ qpoints ((b, t0) :: queue')). split; [|split; auto].
+      * eapply perm_trans; [|exact Hperm]. perm_solve.
+      * intros p Hp. apply in_app_or in Hp. destruct Hp as [Hp | Hp]; [auto|].
+        unfold qpoints in Hp. apply in_flat_map in Hp. destruct Hp as [e [He Hpe]].
+        assert (Hb : b <= dqp p).
+        { eapply Rle_trans; [apply (asc_head_le queue' (b, t0) e Hs He)|].
+          apply node_points_bound; auto. rewrite Forall_forall in Hn. auto. }
+        apply orb_true_iff in Ebreak. destruct Ebreak as [Eb | Eb].
+        -- left. unfold out_of_range, ge_max in *. destruct mx as [r|]; [|discriminate].
+           apply Rleb_true in Eb. lra.
+        -- right. apply andb_true_iff in Eb. destruct Eb as [E1 E2]. apply Nat.eqb_eq in E1.
+           apply Rleb_true in E2. split; auto. lra.
+    + inversion Hn as [|? ? Hn0 Hn']; subst. assert (Hs' : asc_by fst queue') by (inversion Hs; auto).
+      destruct t0 as [c r ps | c r l rt].
+      * (* leaf *)
+        assert (Hst1 : state ps queue' out D).
+        { destruct Hst as [Hperm [Hok Hj]]. split; [|split; auto].
+          eapply perm_trans; [|exact Hperm]. simpl qpoints. perm_solve. }
+        destruct (visit_leaf_state ps queue' out D Hst1) as [D1 Hst2].
+        apply (IH queue' _ D1 Hst2 Hn' Hs'). simpl in Hf. lia.
+      * (* branch *)
+        destruct Hn0 as [Hb [Hinv Hdim]]. simpl in Hinv, Hdim.
+        destruct Hinv as [_ [Hil Hir]]. destruct Hdim as [_ [Hdl Hdr]].
+        assert (Hst1 : state (tree_points l ++ tree_points rt ++ []) queue' out D).
+        { destruct Hst as [Hperm [Hok Hj]]. split; [|split; auto].
+          eapply perm_trans; [|exact Hperm]. simpl qpoints. simpl tree_points. perm_solve. }
+        assert (Hnl : node_ok (node_bound Ro eps m q l, l)) by (repeat split; auto).
+        assert (Hnr : node_ok (node_bound Ro eps m q rt, rt)) by (repeat split; auto).
+        destruct (push_child l _ queue' out D Hnl Hst1) as [D1 Hst2].
+        set (q1 := if le_max Ro (node_bound Ro eps m q l) mx
+                   then ins_asc Ro fst (node_bound Ro eps m q l, l) queue' else queue') in *.
+        destruct (push_child rt [] q1 out D1 Hnr Hst2) as [D2 Hst3].
+        set (q2 := if le_max Ro (node_bound Ro eps m q rt) mx
+                   then ins_asc Ro fst (node_bound Ro eps m q rt, rt) q1 else q1) in *.
+        assert (Hq1 : Forall node_ok q1 /\ asc_by fst q1 /\ (qnodes q1 <= tree_nodes l + qnodes queue')%nat).
+        { unfold q1. destruct (le_max Ro (node_bound Ro eps m q l) mx).
+          - split; [|split].
+            + rewrite Forall_forall in *. intros e He.
+              apply (Permutation_in _ (ins_asc_perm fst _ queue')) in He. destruct He; [subst; auto | auto].
+            + apply ins_asc_sorted. exact Hs'.
+            + rewrite qnodes_ins. simpl. lia.
+          - split; [|split]; auto. lia. }
+        destruct Hq1 as [Hq1n [Hq1s Hq1c]].
+        assert (Hq2 : Forall node_ok q2 /\ asc_by fst q2 /\ (qnodes q2 <= tree_nodes rt + qnodes q1)%nat).
+        { unfold q2. destruct (le_max Ro (node_bound Ro eps m q rt) mx).
+          - split; [|split].
+            + rewrite Forall_forall in *. intros e He.
+              apply (Permutation_in _ (ins_asc_perm fst _ q1)) in He. destruct He; [subst; auto | auto].
+            + apply ins_asc_sorted. exact Hq1s.
+            + rewrite qnodes_ins. simpl. lia.
+          - split; [|split]; auto. lia. }
+        destruct Hq2 as [Hq2n [Hq2s Hq2c]].
+        apply (IH q2 out D2 Hst3 Hq2n Hq2s). simpl in Hf. lia.
+Qed.
+End Search.
+
+(** * final statements *)
+Lemma desc_rev_asc {A} (key : A -> R) (l : list A) : desc_by key l -> asc_by key (rev l).
+Proof.
+  unfold desc_by, asc_by. induction l as [|a l IH]; simpl; intros H; [constructor|].
+  inversion H as [|? ? Hl Ha]; subst.
+  assert (Hs : forall l1 l2 : list A, StronglySorted (fun a b => key a <= key b) l1 ->
+                 StronglySorted (fun a b => key a <= key b) l2 ->
+                 (forall x y, In x l1 -> In y l2 -> key x <= key y) ->
+                 StronglySorted (fun a b => key a <= key b) (l1 ++ l2)).
+  { induction l1 as [|x l1 IH1]; simpl; intros l2 H1 H2 H12; auto.
+    inversion H1; subst. constructor; [apply IH1; auto|].
+    rewrite Forall_forall in *. intros z Hz. apply in_app_or in Hz. destruct Hz; auto. }
+  apply Hs; [apply IH; exact Hl | repeat constructor |].
+  intros x y Hx [Hy | []]. subst. rewrite Forall_forall in Ha. apply Ha. apply in_rev. exact Hx.
+Qed.
+
+Section Final.
+Context (m : metric) (eps : R) (X : list (list R)) (t : btree R) (q : list R) (dm : nat).
+Context (Heps : 0 <= eps) (Hinv : Inv m t) (Hdim : dim_ok dm t) (Hq : length q = dm).
+Context (Hperm : Permutation (tree_points t) (enumerate X)).
+
+Let dq := dq_of Ro m q.
+
+Lemma start_state k mx :
+  state m q k mx (tree_points t) [] [(node_bound Ro eps m q t, t)] [] [].
+Proof.
+  split; [|split].
+  - simpl. rewrite !app_nil_r. apply Permutation_refl.
+  - split; [constructor | split; [apply Nat.le_0_l | intros e []]].
+  - intros p [].
+Qed.
+
+Lemma run_loop k mx : (1 <= k)%nat ->
+  exists D', let out := bt_loop Ro eps (S (tree_nodes t)) m q k mx [(node_bound Ro eps m q t, t)] [] in
+    Permutation (map snd out ++ D') (tree_points t) /\ out_ok m q k mx out /\
+    forall p, In p D' -> justified m q k mx out p.
+Proof.
+  intros Hk.
+  apply (bt_loop_state m q k mx eps dm Heps Hk Hq (tree_points t) (S (tree_nodes t)) _ [] [] (start_state k mx)).
+  - constructor; [|constructor]. repeat split; auto.
+  - repeat constructor.
+  - simpl. lia.
+Qed.
+
+Lemma answer_facts k mx (out : list (R * rpt)) (D' : list rpt) :
+  Permutation (map snd out ++ D') (tree_points t) -> out_ok m q k mx out ->
+  incl (map snd (rev out)) (enumerate X) /\ NoDup (map snd (map snd (rev out))) /\
+  asc_by dq (map snd (rev out)) /\ (length out + length D' = length X)%nat.
+Proof.
+  intros Hp [Hs [Hl He]].
+  assert (Hall : Permutation (map snd out ++ D') (enumerate X)) by (eapply perm_trans; eauto).
+  repeat split.
+  - intros p Hin. apply (Permutation_in _ Hall). apply in_or_app. left.
+    rewrite map_rev in Hin. apply in_rev in Hin. exact Hin.
+  - assert (Hn : NoDup (map snd (map snd out ++ D'))).
+    { eapply Permutation_NoDup; [apply Permutation_sym; apply Permutation_map; exact Hall | apply enumerate_nodup]. }
+    rewrite map_app in Hn. apply NoDup_app_l in Hn.
+    eapply Permutation_NoDup; [|exact Hn]. apply Permutation_map. apply Permutation_map. apply Permutation_rev.
+  - apply asc_by_map. apply (asc_by_ext fst).
+    + intros e Hin. apply in_rev in Hin. destruct (He e Hin) as [E _]. exact E.
+    + apply desc_rev_asc. exact Hs.
+  - assert (H := Permutation_length Hall). rewrite app_length, map_length in H.
+    rewrite H. apply enumerate_length.
+Qed.
+
+(* k nearest *)
+Theorem bt_knn_is_knn k : is_knn dq k X (bt_knn Ro eps m t (length X) q k).
+Proof.
+  unfold bt_knn, nn_helper.
+  destruct (Nat.eqb (length X) 0) eqn:En.
+  { apply Nat.eqb_eq in En. destruct X; [|discriminate]. simpl.
+    split; [rewrite Nat.min_0_r; reflexivity|]. split; [intros ? []|]. split; [constructor|].
+    split; [constructor | intros ? ? []]. }
+  destruct (Nat.eqb k 0) eqn:Ek.
+  { apply Nat.eqb_eq in Ek. subst. simpl.
+    split; [reflexivity|]. split; [intros ? []|]. split; [constructor|].
+    split; [constructor | intros ? ? []]. }
+  simpl orb. cbv iota.
+  apply Nat.eqb_neq in En. apply Nat.eqb_neq in Ek. assert (Hk : (1 <= k)%nat) by lia.
+  destruct (run_loop k None Hk) as [D' H]. cbv zeta in H.
+  set (out := bt_loop Ro eps (S (tree_nodes t)) m q k None [(node_bound Ro eps m q t, t)] []) in *.
+  destruct H as [Hp [Hok Hj]].
+  destruct (answer_facts k None out D' Hp Hok) as [F1 [F2 [F3 F4]]].
+  destruct Hok as [Hs [Hl He]]. unfold rpt, ipt, pt in *.
+  assert (HD : (length out < k)%nat -> D' = []).
+  { intros Hlt. destruct D' as [|p0 D0]; auto. exfalso.
+    destruct (Hj p0 (or_introl eq_refl)) as [Ho | [Hf _]]; [exact Ho|].
+    apply (Nat.lt_irrefl k). apply Nat.le_lt_trans with (length out); [apply Nat.eq_le_incl; symmetry; exact Hf | exact Hlt]. }
+  split; [|split; [|split; [|split]]]; auto.
+  - rewrite map_length, rev_length.
+    destruct (Nat.lt_ge_cases (length out) k) as [Hlt | Hge].
+    + rewrite (HD Hlt) in F4. simpl in F4. lia.
+    + lia.
+  - intros p p' Hp0 Hp' Hn.
+    assert (Hin' : In p' D').
+    { assert (Hx : In p' (map snd out ++ D')).
+      { apply (Permutation_in _ (Permutation_sym (perm_trans Hp Hperm))). exact Hp'. }
+      apply in_app_or in Hx. destruct Hx as [Hx | Hx]; auto. exfalso. apply Hn.
+      rewrite map_rev. apply in_rev. rewrite rev_involutive. exact Hx. }
+    destruct (Hj p' Hin') as [Ho | [Hf Hw]]; [destruct Ho|].
+    rewrite map_rev in Hp0. apply in_rev in Hp0. apply in_map_iff in Hp0. destruct Hp0 as [e [E Hein]]. subst p.
+    destruct (He e Hein) as [E1 _]. unfold dq, dq_of. fold (dqp m q (snd e)). rewrite <- E1.
+    eapply Rle_trans; [apply (worst_head out e Hein Hs) | exact Hw].
+Qed.
+
+(* range *)
+Theorem bt_range_is_range r : is_range dq (to_r Ro m r) X (bt_range Ro eps m t (length X) q r).
+Proof.
+  unfold bt_range, nn_helper.
+  destruct (Nat.eqb (length X) 0) eqn:En.
+  { apply Nat.eqb_eq in En. destruct X; [|discriminate]. simpl. split; [constructor|].
+    intros p. simpl. tauto. }
+  simpl orb. cbv iota. apply Nat.eqb_neq in En. assert (Hk : (1 <= length X)%nat) by lia.
+  destruct (run_loop (length X) (Some (to_r Ro m r)) Hk) as [D' H]. cbv zeta in H.
+  set (out := bt_loop Ro eps (S (tree_nodes t)) m q (length X) (Some (to_r Ro m r)) [(node_bound Ro eps m q t, t)] []) in *.
+  destruct H as [Hp [Hok Hj]].
+  destruct (answer_facts _ _ out D' Hp Hok) as [F1 [F2 [F3 F4]]].
+  destruct Hok as [Hs [Hl He]]. unfold rpt, ipt, pt in *.
+  split; auto. intros p. split.
+  - intros Hin. split; [apply F1; exact Hin|].
+    rewrite map_rev in Hin. apply in_rev in Hin. apply in_map_iff in Hin. destruct Hin as [e [E Hein]]. subst p.
+    destruct (He e Hein) as [E1 E2]. unfold dq, dq_of. fold (dqp m q (snd e)). rewrite <- E1.
+    simpl in E2. apply Rltb_true in E2. exact E2.
+  - intros [Hin Hlt].
+    assert (Hx : In p (map snd out ++ D')).
+    { apply (Permutation_in _ (Permutation_sym (perm_trans Hp Hperm))). exact Hin. }
+    apply in_app_or in Hx. destruct Hx as [Hx | Hx].
+    + rewrite map_rev. apply in_rev. rewrite rev_involutive. exact Hx.
+    + exfalso. destruct (Hj p Hx) as [Ho | [Hf _]].
+      * unfold out_of_range in Ho. unfold dq, dq_of in Hlt. unfold dqp in Ho. lra.
+      * destruct D' as [|d0 D0]; [destruct Hx|]. simpl in F4.
+        assert (F5 : (length out + S (length D0) = length out)%nat) by (rewrite F4; symmetry; exact Hf). lia.
+Qed.
+End Final.
+
+(** * dimensions in the tree built by bt_build; the end-to-end statements *)
+Lemma vadd_length (a b : list R) : length (vadd Ro a b) = Nat.min (length a) (length b).
+Proof. unfold vadd. rewrite map_length, combine_length. reflexivity. Qed.
+
+Lemma fold_vadd_length dm (ps : list rpt) : forall c,
+  length c = dm -> (forall p, In p ps -> length (fst p) = dm) ->
+  length (fold_left (fun c p => vadd Ro c (fst p)) ps c) = dm.
+Proof.
+  induction ps as [|p ps IH]; intros c Hc Hp; simpl; auto.
+  apply IH; [|intros p' Hp'; apply Hp; right; auto].
+  rewrite vadd_length, Hc, (Hp p (or_introl eq_refl)). apply Nat.min_id.
+Qed.
+
+Lemma leaf_node_dim m dm (ps : list rpt) :
+  (forall p, In p ps -> length (fst p) = dm) -> dim_ok dm (leaf_node Ro m ps).
+Proof.
+  intros Hp. unfold leaf_node. destruct ps as [|p0 t]; simpl.
+  - split; [intros p [] | exact I].
+  - split; [|exact I]. intros p Hin. split; [apply Hp; exact Hin|].
+    rewrite map_length. apply (fold_vadd_length dm (p0 :: t)); auto.
+    rewrite repeat_length. apply Hp. left. reflexivity.
+Qed.
+
+Lemma bt_build_dim m leaf dm : (1 <= leaf)%nat -> forall fuel (ps : list rpt), (length ps <= fuel)%nat ->
+  (forall p, In p ps -> length (fst p) = dm) -> dim_ok dm (bt_build Ro fuel m leaf ps).
+Proof.
+  intros Hleaf. induction fuel as [|f IH]; intros ps Hf Hp.
+  - destruct ps as [|p ps]; [|simpl in Hf; inversion Hf]. simpl. split; [intros p [] | exact I].
+  - rewrite bt_build_S. destruct (Nat.leb (length ps) leaf) eqn:E.
+    + apply leaf_node_dim. exact Hp.
+    + apply Nat.leb_gt in E.
+      destruct (partition_pts Ro ps) as [[l c] r] eqn:Ep.
+      assert (H2 : (2 <= length ps)%nat)
+        by (apply Nat.le_trans with (S leaf); [apply le_n_S; exact Hleaf | exact E]).
+      destruct (partition_pts_spec ps l c r H2 Ep) as [Pp [Hl [Hr [e [He Hc]]]]].
+      assert (Hlen := Permutation_length Pp). rewrite app_length in Hlen.
+      assert (Ll : (length l <= f)%nat).
+      { destruct r; [contradiction|]. unfold rpt, ipt, pt in *. simpl in Hlen. lia. }
+      assert (Lr : (length r <= f)%nat).
+      { destruct l; [contradiction|]. unfold rpt, ipt, pt in *. simpl in Hlen. lia. }
+      assert (Hpl : forall p, In p l -> length (fst p) = dm).
+      { intros p Hin. apply Hp. apply (Permutation_in _ Pp). apply in_or_app. auto. }
+      assert (Hpr : forall p, In p r -> length (fst p) = dm).
+      { intros p Hin. apply Hp. apply (Permutation_in _ Pp). apply in_or_app. auto. }
+      destruct (bt_build_spec m leaf Hleaf f l Ll) as [_ Pl].
+      destruct (bt_build_spec m leaf Hleaf f r Lr) as [_ Pr].
+      simpl. split; [|split; [apply IH | apply IH]; auto].
+      intros p Hin. split; [|subst c; apply Hp; exact He].
+      apply Hp. apply (Permutation_in _ Pp). apply (Permutation_in _ (Permutation_app Pl Pr)). exact Hin.
+Qed.
+
+Section EndToEnd.
+Context (m : metric) (eps : R) (leaf dm : nat) (X : list (list R)) (q : list R).
+Context (Heps : 0 <= eps) (Hleaf : (1 <= leaf)%nat) (HX : forall x, In x X -> length x = dm) (Hq : length q = dm).
+
+Lemma bt_new_wf : Inv m (bt_new Ro m leaf X) /\ dim_ok dm (bt_new Ro m leaf X)
+                  /\ Permutation (tree_points (bt_new Ro m leaf X)) (enumerate X).
+Proof.
+  unfold bt_new.
+  assert (Hl : (length (enumerate X) <= length X)%nat) by (apply Nat.eq_le_incl; exact (enumerate_length X)).
+  destruct (bt_build_spec m leaf Hleaf (length X) (enumerate X) Hl) as [H1 H2].
+  split; [exact H1 | split; [|exact H2]].
+  apply bt_build_dim; auto. intros [c i] Hin. simpl. apply HX.
+  apply enumerate_spec in Hin. apply nth_error_In in Hin. exact Hin.
+Qed.
+
+Theorem ball_tree_knn_correct k :
+  is_knn (dq_of Ro m q) k X (bt_knn Ro eps m (bt_new Ro m leaf X) (length X) q k).
+Proof.
+  destruct bt_new_wf as [H1 [H2 H3]]. apply (bt_knn_is_knn m eps X _ q dm); auto.
+Qed.
+Theorem ball_tree_range_correct r :
+  is_range (dq_of Ro m q) (to_r Ro m r) X (bt_range Ro eps m (bt_new Ro m leaf X) (length X) q r).
+Proof.
+  destruct bt_new_wf as [H1 [H2 H3]]. apply (bt_range_is_range m eps X _ q dm); auto.
+Qed.
+End EndToEnd.
